@@ -216,6 +216,7 @@ def run(ctx):
     table_entry_arithmetic(ctx)
     case_mapping_skip(ctx)
     escaped_delimiter_in_grammar(ctx)
+    unicode_escape_pattern(ctx)
 
 
 def table_lookups(ctx):
@@ -387,7 +388,12 @@ def _fs_units(mir, body, op, depth=4, _seen=None):
                     if fs[0] < len(ops):
                         out.update(_fs_units(mir, pb, ops[fs[0]], depth - 1))
             return
+        f0 = next((e['f'] for e in p['p'] if isinstance(e, dict) and 'f' in e and 'dc' not in e), None)
+        if f0 is not None and p['p'] and isinstance(p['p'][0], dict) and p['p'][0].get('f') == f0:
+            want_field[p['l']] = f0
         visit_local(p['l'])
+
+    want_field = {}
 
     def visit_local(l):
         if (body.id, l) in seen:
@@ -409,6 +415,13 @@ def _fs_units(mir, body, op, depth=4, _seen=None):
                                     out.update(_fs_units(mir, pb, o, depth - 1))
                 return
             ty = (body.local_ty(l) or '').replace(' ', '')
+            # a private helper of the file (all its callers are in the file): its parameter is what the callers hand over
+            sites = [c for c in mir.callers_index().get(body.nid, []) if c[0].nid != body.nid]
+            if sites and all(c[0].file == FS for c in sites) and depth > 0:
+                for cb, cbb, ct in sites:
+                    if l - 1 < len(ct['args']):
+                        out.update(_fs_units(mir, cb, ct['args'][l - 1], depth - 1))
+                return
             if ty in ('usize', 'std::option::Option<usize>', '&usize'):
                 out.add('cp')
             return
@@ -435,7 +448,31 @@ def _fs_units(mir, body, op, depth=4, _seen=None):
                     if p is not None:
                         visit_place(p)
                     continue
+                # a function of this file (a helper returning byte bounds): what it returns
+                cal = x.get('callee')
+                cb_ = mir.by_id.get(cal) if cal else None
+                if cb_ is None and cal:
+                    cs_ = mir.by_nid.get(strip_generics(cal), [])
+                    cb_ = cs_[0] if len(cs_) == 1 else None
+                if cb_ is not None and cb_.file == FS and cb_.kind == 'fn' and depth > 0 and cb_.id != body.id:
+                    fld = want_field.get(l)
+                    tuples = [s2['rv'] for _, _, s2 in cb_.stmts() if s2['k'] == 'assign' and not s2['place']['p'] and s2['place']['l'] == 0 and s2['rv']['k'] == 'agg' and s2['rv'].get('ak') == 'tuple']
+                    if fld is not None and tuples and all(fld < len(tv['ops']) for tv in tuples):
+                        # only the component that is read: (start_byte, end_byte) = self.byte_bounds(..)
+                        for tv in tuples:
+                            out.update(_fs_units(mir, cb_, tv['ops'][fld], depth - 1))
+                    else:
+                        out.update(_fs_units(mir, cb_, {'copy': {'l': 0, 'p': []}}, depth - 1))
+                    continue
                 # closures handed to adaptors: what they return
+                has_closure = False
+                for a in x['args']:
+                    p = op_place(a)
+                    if p is not None and not p['p']:
+                        k2, v2 = mirq.chase(body, p['l'])
+                        if k2 == 'rv' and v2[2]['rv']['k'] == 'agg' and v2[2]['rv'].get('ak') == 'closure':
+                            has_closure = True
+                value_from_closure = has_closure and re.search(r'::(map|and_then|then|filter_map|map_or_else)$', nm) is not None
                 for a in x['args']:
                     p = op_place(a)
                     if p is None:
@@ -447,6 +484,8 @@ def _fs_units(mir, body, op, depth=4, _seen=None):
                             if cb is not None and depth > 0:
                                 out.update(_fs_units(mir, cb, {'copy': {'l': 0, 'p': []}}, depth - 1))
                             continue
+                    if value_from_closure:
+                        continue      # opt.and_then(|e| table.get(e)): the value is what the closure yields; the receiver only decides whether
                     visit_place(p)
             else:
                 rv = x['rv']
@@ -496,7 +535,7 @@ def table_entry_arithmetic(ctx):
             r8.inst({'fn': fn, 'site': where, 'op': op, 'left': sorted(ua), 'right': sorted(ub)}, ok=ok, kind=(b.nid, key))
             if not ok:
                 r8.fail('%s/table-entry-%s-char-count' % (fn.split('::')[-1], op.lower()[:3]), where, 'an entry of the char-start table (a byte offset) is %s a character index / count: the table of the result no longer points at the starts of its characters for text with multi-byte characters before the slice (substring(1, ..) of "éa" yields a table starting at 1 instead of 0)' % ('reduced by' if op.startswith('Sub') else 'added to'))
-    r8.need(2)
+    r8.need(1)
 
 
 def case_mapping_skip(ctx):
@@ -619,3 +658,45 @@ def escaped_delimiter_in_grammar(ctx):
         if not ok:
             r10.fail('grammar/%s/escaped-delimiter' % r['name'], 'src/xray.pest', 'the body rule `%s` of a literal delimited by %s has no alternative for backslash + %s (its unit alternatives are %s): the documented escape \\%s ends the literal instead of denoting the quote (%sa\\%sb%s is a syntax error)' % (r['name'], delim, delim, alts, delim, delim, delim, delim))
     r10.need(4)
+
+
+def unicode_escape_pattern(ctx):
+    """R18.11: the book: `\\u{xxxxxx}` - hexadecimal character code (between 1 and 6 hexadecimal digits).  The code between the braces
+    is validated by a regular expression before it is parsed with from_str_radix (which would accept a sign).  That expression
+    must describe the *whole* code: anchored at both ends, a class of hexadecimal digits, one to six of them."""
+    from .lib import mirq
+    from .lib.facts import strip_generics, callee_name
+    mir = ctx.mir
+    r11 = ctx.rule('R18.11', 'the code of a \\u{..} escape is validated as a whole: 1 to 6 hexadecimal digits, nothing else')
+    pats = []
+    for b in mir.bodies:
+        if b.file != 'src/util/str_escapes.rs' or '::tests::' in b.nid:
+            continue
+        for bb, t in b.calls():
+            if strip_generics(callee_name(t) or '') != 'regex::Regex::new' or not t['args']:
+                continue
+            k, c = mirq.chase_op(b, t['args'][0])
+            lit = None
+            if k == 'const':
+                lit = c.get('s')
+            if lit is None:
+                continue
+            lit = lit.strip('"')
+            pats.append((b, bb, lit))
+    cands = [(b, bb, p) for b, bb, p in pats if re.search(r'\{1,\d+\}', p) or 'a-f' in p.lower()]
+    if not cands:
+        # no separate validation pattern: fine only if the escape pattern itself restricts the code
+        esc = [(b, bb, p) for b, bb, p in pats if 'u\\{' in p or 'u\\\\{' in p]
+        ok = any(re.search(r'u\\+\{\[[0-9a-fA-F\-]+\]\{1,6\}\\+\}', p) for b, bb, p in esc)
+        r11.inst({'validation': 'inside the escape pattern', 'restricts_the_code': ok}, ok=ok, kind='inline')
+        if not ok:
+            r11.fail('unicode-escape/no-validation', 'src/util/str_escapes.rs', 'no pattern restricts the code of \\u{..} to 1-6 hexadecimal digits')
+    for b, bb, p in cands:
+        anchored = (p.startswith('^') or p.startswith('\\A')) and (p.endswith('$') or p.endswith('\\z'))
+        core = re.sub(r'^(\^|\\A)|(\$|\\z)$', '', p)
+        shape = re.fullmatch(r'\[(?:a-fA-F0-9|0-9a-fA-F|A-Fa-f0-9|0-9A-Fa-f|[0-9a-fA-F\-]+)\]\{1,6\}', core) is not None
+        ok = anchored and shape
+        r11.inst({'pattern': p, 'anchored_at_both_ends': anchored, 'one_to_six_hex_digits': shape}, ok=ok, kind=p)
+        if not ok:
+            r11.fail('unicode-escape/pattern', mirq.site(b, bb), 'the pattern `%s` that validates the code of \\u{..} %s: "\\u{+41}" and "\\u{0000041}" are accepted as "A" although the book allows 1 to 6 hexadecimal digits' % (p, 'is not anchored at both ends (a suffix of the code is enough to match)' if not anchored else 'does not describe 1-6 hexadecimal digits'))
+    r11.need(1)
